@@ -26,20 +26,24 @@ PercentOK(p10, q) == /\ p10 \in 0..1000
                         \/ LET d == p10 * q[2] - 10 * q[1]
                            IN  2 * (IF d < 0 THEN -d ELSE d) <= q[2]
 
+\* every metric zeroed for want of a source is named; nothing else is, except what the
+\* statement leaves open
+WarnOK(o, g) == o.warn \subseteq Range(g.warn) /\ Range(g.warn) \subseteq o.warn \cup o.mayname
+
 MatchVm(o, g) ==
   /\ o.total = g.total /\ o.available = g.available /\ o.used = g.used /\ o.free = g.free
   /\ o.active = g.active /\ o.inactive = g.inactive /\ o.buffers = g.buffers
   /\ o.cached = g.cached /\ o.shared = g.shared /\ o.slab = g.slab
-  /\ o.warn = Range(g.warn)
+  /\ WarnOK(o, g)
   /\ PercentOK(g.p10, o.percent)
 
 MatchSwap(o, g) ==
   /\ o.total = g.total /\ o.used = g.used /\ o.free = g.free
   /\ o.sin = g.sin /\ o.sout = g.sout
-  /\ o.warn = Range(g.warn)
+  /\ WarnOK(o, g)
   /\ PercentOK(g.p10, o.percent)
 
 Match == (out # Pending) =>
            \/ IF inp.k = "vm" THEN MatchVm(out, Traces[idx].got) ELSE MatchSwap(out, Traces[idx].got)
-           \/ PrintT(<<"REJECTED", idx>>) /\ FALSE
+           \/ PrintT(<<"REJECTED", idx, ToJson(out)>>) /\ FALSE
 =============================================================================
